@@ -16,10 +16,17 @@
 (*   G            a fresh gate, labelled with its path and the loop values *)
 (*   R  n=<<r>>   the r-th most recent result of a do/apply statement      *)
 (*   U  c=<<e>>   unary wrapper  (adjoint | ctrl | pow | s_prod by place)  *)
+(*   E  c=<<e>>   eager unary wrapper: pow(e, z, lazy=False) for assorted  *)
+(*                z | adjoint(e, lazy=False) | s_prod(.., lazy=False) |    *)
+(*                simplify(e): the result may be any simplified operator   *)
 (*   P  c=<<a,b>> binary wrapper (prod | sum by place)                     *)
 (*  statements                                                             *)
 (*   do c=<<e>> | meas c=<<e>> or <<>> | apply n=<<r>> | raise             *)
 (*   ctx c=<<b>>   with AnnotatedQueue():      stop c=<<b>> stop_recording *)
+(*   tape c=<<b>>  with QuantumTape(): the tape is itself queued in the    *)
+(*                 enclosing context; leaving it builds the tape, which    *)
+(*                 raises if an operator follows a measurement (decided    *)
+(*                 dynamically by the state machine, see QProgGen)         *)
 (*   try c=<<b>>   try: b except: pass                                     *)
 (*   for n=<<lo,hi,step,carry>> c=<<b>>   qp.for_loop(lo,hi,step)          *)
 (*   while n=<<x0,k,d>> c=<<b>>           qp.while_loop(x < k), x += d     *)
@@ -65,6 +72,7 @@ FlatE(e, p, iv) ==
   CASE e.t = "G" -> << A("g", p, iv, 0) >>
     [] e.t = "R" -> << A("ref", p, iv, e.n[1]) >>
     [] e.t = "U" -> FlatE(e.c[1][1], Append(p, 1), iv) \o << A("u", p, iv, 0) >>
+    [] e.t = "E" -> FlatE(e.c[1][1], Append(p, 1), iv) \o << A("e", p, iv, 0) >>
     [] e.t = "P" -> FlatE(e.c[1][1], Append(p, 1), iv) \o FlatE(e.c[2][1], Append(p, 2), iv) \o << A("p", p, iv, 0) >>
 
 RECURSIVE FlatB(_, _, _, _, _), FlatS(_, _, _, _), ForIter(_, _, _, _, _, _, _, _), WhileIter(_, _, _, _, _, _, _, _), LiftBody(_, _, _, _, _)
@@ -108,6 +116,8 @@ FlatS(s, p, iv, rec) ==
     [] s.t = "raise" -> Res(<< A("raise", p, iv, 0) >>, TRUE)
     [] s.t = "ctx"   -> LET b == FlatB(s.c[1], Append(p, 1), iv, TRUE, 1) IN
                         Res(<< A("enter", p, iv, 0) >> \o b.acts \o << A("exit", p, iv, 0) >>, b.raised)
+    [] s.t = "tape"  -> LET b == FlatB(s.c[1], Append(p, 1), iv, TRUE, 1) IN
+                        Res(<< A("tenter", p, iv, 0) >> \o b.acts \o << A("texit", p, iv, 0) >>, b.raised)
     [] s.t = "stop"  -> LET b == FlatB(s.c[1], Append(p, 1), iv, FALSE, 1) IN
                         Res(<< A("stopenter", p, iv, 0) >> \o b.acts \o << A("stopexit", p, iv, 0) >>, b.raised)
     [] s.t = "try"   -> LET b == FlatB(s.c[1], Append(p, 1), iv, rec, 1) IN
@@ -150,6 +160,7 @@ On(k, set) == IF k \in Kinds THEN set ELSE {}
 E(n) ==
   IF n = 1 THEN On("G", {Nd("G", <<>>, <<>>)}) \cup On("R", {Nd("R", <<r>>, <<>>) : r \in 1..MaxRef})
   ELSE On("U", {Nd("U", <<>>, << <<e>> >>) : e \in E(n - 1)})
+       \cup On("E", {Nd("E", <<>>, << <<e>> >>) : e \in E(n - 1)})
        \cup On("P", UNION {{Nd("P", <<>>, << <<a>>, <<b>> >>) : a \in E(i), b \in E(n - 1 - i)} : i \in 1..(n - 2)})
 \* branch tuples for cond: k blocks of total size m, each non-empty
 RECURSIVE Branches(_, _, _)
@@ -163,7 +174,7 @@ S(n, d) ==
                       \cup On("raise", {Nd("raise", <<>>, <<>>)})
         ELSE On("meas", {Nd("meas", <<>>, << <<e>> >>) : e \in E(n - 1)}))
   \cup (IF n >= 2 /\ d > 0
-        THEN UNION {On(k, {Nd(k, <<>>, <<b>>) : b \in B(n - 1, d - 1)}) : k \in {"ctx", "stop", "try"}}
+        THEN UNION {On(k, {Nd(k, <<>>, <<b>>) : b \in B(n - 1, d - 1)}) : k \in {"ctx", "stop", "try", "tape"}}
              \cup On("for", {Nd("for", f, <<b>>) : f \in ForSpecs, b \in B(n - 1, d - 1)})
              \cup On("while", {Nd("while", w, <<b>>) : w \in WhileSpecs, b \in B(n - 1, d - 1)})
              \cup On("cond", UNION {{Nd("cond", ps, bs) : bs \in Branches(Len(ps), n - 1, d - 1) \cup Branches(Len(ps) + 1, n - 1, d - 1)} : ps \in CondPreds})
